@@ -358,6 +358,8 @@ def run(chk, repo):
     from rules.shared import kwname
     chk.clauses.append('C12.kw (shared R-THREAD) parameters handed on as keyword arguments keep their name: no `a=b` between two parameters of one function')
     kwname(chk, repo, 'C12.kw', ['index', 'params'], floor=0)
+    saved_before_mutation(chk, repo, 'C12.f')
+
 
 def fstr(node):
     if node is None:
@@ -408,3 +410,96 @@ def lookup_key_rules(chk, repo, rid):
            'get_canonical_pool no longer compares the complete jsonfy(graph_params=False) dictionaries (partial key => pools of other parameter sets match)',
            key=gp.qual + '::full-compare', fn=gp.qual)
     return dig
+
+def saved_before_mutation(chk, repo, rid):
+    """R-ORDER: generateIndex stores the proteome it READ.  Two later steps change the in-memory proteome (check_protein_coding removes
+    entries containing '*', create_unique_peptide_pool strips / truncates the sequences of its entries in place), so save_proteome must
+    come before every call that is handed the proteome and modifies it.  Which callees modify their argument is read from their
+    bodies (stores to attributes of the entries, pop / del on the mapping), not from a list."""
+    chk.rule(rid, 'R-ORDER: the proteome is saved before any step that modifies it in memory', 2)
+    chk.clauses.append('C12.f generateIndex saves the proteome before the steps that change it in memory (entries removed by check_protein_coding, sequences trimmed by create_unique_peptide_pool): the stored proteome is the one that was given')
+    g = repo.func('cli.generate_index:generate_index')
+    chk.uses(g)
+    cfg = CFG(g.node)
+    saves = [n.id for n in cfg.nodes if n.kind == 'stmt' and any(call_name(c) == 'save_proteome' for c in G.find_calls(n.ast))]
+    if len(saves) != 1:
+        chk.undecided(rid, 'save_proteome', g.where, f"{len(saves)} save_proteome calls", key=g.qual + '::save', fn=g.qual)
+        return
+    sv = [c for c in G.find_calls(g.node, 'save_proteome')][0]
+    P = unparse(sv.args[0]) if sv.args else 'proteome'
+
+    def mutates(fn, who, depth=2):
+        """does fn change the mapping `who` or its entries in place (directly, or by handing it to a callee that does)?"""
+        if depth > 0:
+            for c_ in ast.walk(fn):
+                if isinstance(c_, ast.Call):
+                    for k_, a_ in list(enumerate(c_.args)) + [(kw.arg, kw.value) for kw in c_.keywords]:
+                        if isinstance(a_, ast.Name) and a_.id == who and call_name(c_):
+                            for q_, f_ in repo.functions.items():
+                                if q_.split(':')[1].split('.')[-1] == call_name(c_) and not f_.module.modname.startswith('util') and f_.node is not fn:
+                                    ps_ = [x.arg for x in f_.node.args.args]
+                                    off_ = 1 if ps_ and ps_[0] in ('self', 'cls') else 0
+                                    w_ = k_ if isinstance(k_, str) else (ps_[k_ + off_] if k_ + off_ < len(ps_) else None)
+                                    if w_ in ps_:
+                                        r_ = mutates(f_.node, w_, depth - 1)
+                                        if r_:
+                                            return r_ + f" (via {f_.qual.split(':')[1]})"
+        entries = set()
+        for n in ast.walk(fn):
+            if isinstance(n, ast.Assign) and isinstance(n.value, ast.Call) and call_name(n.value) in ('next', 'iter') and who in unparse(n.value):
+                for t in n.targets:
+                    if isinstance(t, ast.Name):
+                        entries.add(t.id)
+            if isinstance(n, (ast.For, ast.comprehension)) and who in unparse(n.iter):
+                entries |= {t.id for t in ast.walk(n.target) if isinstance(t, ast.Name)}
+        for _ in range(3):
+            for n in ast.walk(fn):
+                if isinstance(n, ast.Assign) and isinstance(n.value, ast.Call) and call_name(n.value) == 'next' and any(isinstance(x, ast.Name) and x.id in entries for x in ast.walk(n.value)):
+                    entries |= {t.id for t in n.targets if isinstance(t, ast.Name)}
+        for n in ast.walk(fn):
+            if isinstance(n, ast.Assign):
+                for t in n.targets:
+                    if isinstance(t, ast.Attribute) and isinstance(t.value, ast.Name) and t.value.id in entries:
+                        return f"`{norm_stmt(n)}`"
+                    if isinstance(t, ast.Subscript) and unparse(t.value) == who:
+                        return f"`{norm_stmt(n)}`"
+            if isinstance(n, ast.Call) and isinstance(n.func, ast.Attribute) and unparse(n.func.value) == who and n.func.attr in ('pop', 'popitem', 'clear', 'update', 'setdefault'):
+                return f"`{unparse(n)}`"
+            if isinstance(n, ast.Delete) and any(isinstance(t, ast.Subscript) and unparse(t.value) == who for t in n.targets):
+                return f"`{norm_stmt(n)}`"
+        return None
+    n_mut = 0
+    for nd in cfg.nodes:
+        if nd.kind != 'stmt':
+            continue
+        for c in G.find_calls(nd.ast):
+            nm = call_name(c)
+            if nm in ('save_proteome', 'dump_fasta'):
+                continue
+            callee, who = None, None
+            if isinstance(c.func, ast.Attribute) and unparse(c.func.value) == P:
+                cands = [f_ for q_, f_ in repo.functions.items() if q_.endswith('.' + nm) and q_.startswith('aa.AminoAcidSeqDict:')]
+                callee, who = (cands[0] if cands else None), 'self'
+            else:
+                for k, a in list(enumerate(c.args)) + [(kw.arg, kw.value) for kw in c.keywords]:
+                    if unparse(a) == P:
+                        cands = [f_ for q_, f_ in repo.functions.items() if q_.split(':')[1].split('.')[-1] == nm and not f_.module.modname.startswith('util')]
+                        if cands:
+                            # several classes may define the method: any definition that modifies the argument counts
+                            callee = next((c_ for c_ in cands if (k if isinstance(k, str) else None) in [x.arg for x in c_.node.args.args] or not isinstance(k, str)), cands[0])
+                            ps = [x.arg for x in callee.node.args.args]
+                            if isinstance(k, str):
+                                who = k
+                            else:
+                                off = 1 if ps and ps[0] in ('self', 'cls') else 0
+                                who = ps[k + off] if k + off < len(ps) else None
+            if callee is None or who is None:
+                continue
+            why = mutates(callee.node, who)
+            if why is None:
+                continue
+            n_mut += 1
+            chk.ob(rid, f"save_proteome({P}) comes before {nm}(...), which modifies the proteome ({why})", repo.loc(g, c), cfg.dominates(saves[0], nd.id),
+                   f"{nm}(...) changes the proteome in memory ({why} in {callee.qual}) and is not preceded by save_proteome on every path: the stored proteome is not the one that was given "
+                   "(entries with a leading / internal X are stored trimmed, entries containing '*' can be missing)", key=g.qual + f'::saved-before::{nm}', fn=g.qual)
+    chk.extra['proteome_mutating_calls'] = n_mut
